@@ -216,6 +216,15 @@ def check_dataset(case, ctx):
         except (Exception, SystemExit) as e:
             ctx.fail("C08/def/%s/exception" % name, dict(case, metric=name), "%s: %s (%s)" % (type(e).__name__, e, repo_frame_key(e)))
             continue
+        # the same score computed once more on the same object (a second metric of the same event reads the same
+        # cached probabilities): must be what it was the first time
+        try:
+            y_again = mrun.scores(data, name, use_axis, thresholds=T, bin_type=bt)
+            if not cmpx.arrays_equal(y, y_again):
+                ctx.fail("C08/def/%s/second-computation" % name, dict(case, metric=name),
+                         "-m %s -b %s -r/-q %r: second computation on the same dataset object %r, first %r" % (name, bt, T, y_again.tolist(), y.tolist()))
+        except (Exception, SystemExit):
+            pass
         evs = model.events(bt, T) if T is not None else [(None, None)]
         if use_axis == "threshold":
             rows = [("no", 0, ev) for ev in evs]
